@@ -1,0 +1,21 @@
+//go:build verif
+
+package kprapi
+
+import (
+	"net/http"
+
+	"github.com/shutter-network/rolling-shutter/rolling-shutter/keyper/epochkghandler"
+	"github.com/shutter-network/rolling-shutter/rolling-shutter/medley/broker"
+)
+
+// VerifRouter returns the HTTP handler Start serves.
+func (srv *Server) VerifRouter() http.Handler { return srv.setupRouter() }
+
+// VerifShutdownSig returns the channel the shutdown operation signals on.
+func (srv *Server) VerifShutdownSig() chan struct{} { return srv.shutdownSig }
+
+// VerifTrigger returns the channel the decryption-trigger operation sends on.
+func (srv *Server) VerifTrigger() chan *broker.Event[*epochkghandler.DecryptionTrigger] {
+	return srv.trigger
+}
